@@ -289,12 +289,28 @@ Definition valid_is_parent_copy (h0 : heap) (pop : list nat) (h : heap) (l : lis
     exists p, In p pop /\ In (EClone p o) l /\
               geno (ind_at h o) = geno (ind_at h0 p) /\ fit_of h0 p = Some f.
 
+(* the draw list a run of varOr over a population of npop individuals consumes without raising:
+   n iterations, each `random()` followed by sample positions (crossover draw, needs two individuals)
+   or by a choice position (needs one) *)
+Fixpoint or_draws_ok (cxpb : T) (npop n : nat) (d : list draw) : Prop :=
+  match n with
+  | O => True
+  | S n' =>
+      match d with
+      | DRandom u :: DSample m i j :: rest =>
+          ltb u cxpb = true /\ 2 <= npop /\ m = npop /\ i < npop /\ j < npop /\ or_draws_ok cxpb npop n' rest
+      | DRandom u :: DChoice m i :: rest =>
+          ltb u cxpb = false /\ m = npop /\ i < npop /\ or_draws_ok cxpb npop n' rest
+      | _ => False
+      end
+  end.
+
 Definition start (h : heap) (d : list draw) : st := mkst h d 0 [].
 
 End Variation.
 
 Arguments mkind {G}. Arguments mkheap {G F}. Arguments mkmate {G F}. Arguments mkmut {G F}.
-Arguments untouched {G F}. Arguments independent {G F}. Arguments varied_invalid {G F}.
+Arguments or_draws_ok {T}. Arguments untouched {G F}. Arguments independent {G F}. Arguments varied_invalid {G F}.
 Arguments valid_is_parent_copy {G F}. Arguments wf_heap {G F}. Arguments pop_ok {G F}. Arguments reach {G F}. Arguments ret_distinct {G F}.
 Arguments geno {G}. Arguments fitref {G}.
 Arguments ind_at {G F}. Arguments fit_at {G F}. Arguments ni {G F}. Arguments nf {G F}.
